@@ -56,6 +56,7 @@ class World(object):
             setattr(oc, cat, Op)
             self.classes[cat] = Op
         self.ids = {}
+        self.setup_bad = []
         for k in range(1, n + 1):
             cls = self.classes[CATOF[k - 1]]
             cls.interrupt = k in INCOMPLETE
@@ -66,7 +67,15 @@ class World(object):
                 pass
             cls.interrupt = False
             new = set(self._all_ids()) - before
-            assert len(new) == 1, new
+            if len(new) != 1:
+                # LookupStaysInCategory already broken while the world is being built: one recording was made, the
+                # per-category lookups now list several new ids
+                self.setup_bad.append('after recording one operation of category %s the per-category lookups list %d new '
+                                      'ids: %s' % (cls.category, len(new), sorted(new)))
+                own = [i for i in new if i.startswith(cls.category + '/')]
+                if not own:
+                    raise RuntimeError('no id of category %s among %s' % (cls.category, sorted(new)))
+                new = set(own[:1])
             self.ids[k] = new.pop()
         self.tr.disable_recording()
         reader = refetch(self.inner) if refetch else self.inner
@@ -112,7 +121,7 @@ class World(object):
 def execute(world, init, consumes):
     from playback.studio.studio import PlaybackStudio
     from playback.studio.recordings_lookup import RecordingLookupProperties
-    bad = []
+    bad = list(world.setup_bad)
     cats = sorted(set(CATOF))
     world.tuner.failing = set(init['failing'])
     VERSION.clear()
